@@ -112,7 +112,8 @@ def abstract_history(run, sc=None) -> str:
     tpre = rec.snap_by_step("tracker.pre")
     tpost = rec.snap_by_step("tracker.post")
     ipost = rec.snap_by_step("ibm.post")
-    writes = {c[2] for c in rec.calls if c[0] == "output" and c[1] == "write"}
+    period = int(sc["output"]["period"]) if sc is not None and "output" in sc else 1
+    writes = {c[2] for c in rec.calls if c[0] == "output" and c[1] == "update" and c[2] >= 0 and c[2] % period == 0}
     items = []
     for st in sorted(post):
         rel = post[st]["n"] - pre[st]["n"] if st in pre else 0
